@@ -44,7 +44,12 @@ var lockmon = struct {
 	seenViol map[string]bool
 	events   int64
 	acq      []string // order of DB.l acquisitions by goroutine (interleaving fingerprint)
-}{held: map[int64][]heldLock{}, waiting: map[int64]*waitInfo{}, edges: map[string]map[string]string{}, idEdges: map[interface{}]map[interface{}]string{}, seenViol: map[string]bool{}}
+	// WaitGroups of the package: counter per group, goroutines blocked in Wait, goroutines of the
+	// package alive (entered, not returned)
+	wgCount   map[interface{}]int
+	wgWaiting map[int64]interface{}
+	alive     map[int64]string
+}{wgCount: map[interface{}]int{}, wgWaiting: map[int64]interface{}{}, alive: map[int64]string{}, held: map[int64][]heldLock{}, waiting: map[int64]*waitInfo{}, edges: map[string]map[string]string{}, idEdges: map[interface{}]map[interface{}]string{}, seenViol: map[string]bool{}}
 
 func lockmonReset(on bool) {
 	lockmon.mu.Lock()
@@ -57,6 +62,9 @@ func lockmonReset(on bool) {
 	lockmon.viol = nil
 	lockmon.seenViol = map[string]bool{}
 	lockmon.acq = nil
+	lockmon.wgCount = map[interface{}]int{}
+	lockmon.wgWaiting = map[int64]interface{}{}
+	lockmon.alive = map[int64]string{}
 	lockmon.mu.Unlock()
 }
 
@@ -196,6 +204,41 @@ func lockHook(op string, mu interface{}) {
 	lockmon.events++
 	g := gid()
 	switch op {
+	case "wg+":
+		lockmon.wgCount[mu]++
+		return
+	case "wg-":
+		lockmon.wgCount[mu]--
+		return
+	case "wgwait?":
+		if lockmon.wgCount[mu] > 0 {
+			lockmon.wgWaiting[g] = mu
+			wgStallCheck()
+		}
+		return
+	case "wgwait!":
+		// the wait ended: whatever was concluded about it is withdrawn
+		delete(lockmon.wgWaiting, g)
+		key := fmt.Sprintf("waitgroup-deadlock|g%d", g)
+		for i := 0; i < len(lockmon.viol); i++ {
+			if lockmon.viol[i].Kind == "waitgroup-deadlock" && strings.HasPrefix(lockmon.viol[i].Detail, key) {
+				lockmon.viol = append(lockmon.viol[:i], lockmon.viol[i+1:]...)
+				i--
+			}
+		}
+		for k := range lockmon.seenViol {
+			if strings.HasPrefix(k, "waitgroup-deadlock|") {
+				delete(lockmon.seenViol, k)
+			}
+		}
+		return
+	}
+	defer func() {
+		if len(lockmon.wgWaiting) > 0 && !lockmon.light {
+			wgStallCheck()
+		}
+	}()
+	switch op {
 	case "lock?", "rlock?":
 		write := op == "lock?"
 		if lockmon.light {
@@ -278,6 +321,56 @@ func lockHook(op string, mu interface{}) {
 	}
 }
 
+// wgStallCheck (lockmon.mu held): a goroutine blocked in WaitGroup.Wait with a positive counter
+// while holding mutexes is deadlocked when nobody who could call Done can run: every goroutine of
+// the package that is alive, and every goroutine that holds or requests one of the package's
+// mutexes, is (transitively) waiting for a mutex held by the waiter. The verdict is withdrawn if
+// the Wait ever returns (the drivers only read it after their own patience ran out).
+func wgStallCheck() {
+	for g, wg := range lockmon.wgWaiting {
+		if lockmon.wgCount[wg] <= 0 || len(lockmon.held[g]) == 0 {
+			continue
+		}
+		stalled := map[int64]bool{g: true}
+		for changed := true; changed; {
+			changed = false
+			for x, w := range lockmon.waiting {
+				if stalled[x] {
+					continue
+				}
+				for _, b := range lockBlockers(x, w) {
+					if stalled[b] {
+						stalled[x], changed = true, true
+						break
+					}
+				}
+			}
+		}
+		all, n := true, 0
+		var who []string
+		for x, name := range lockmon.alive {
+			n++
+			all = all && stalled[x]
+			if w := lockmon.waiting[x]; w != nil {
+				who = append(who, fmt.Sprintf("goroutine %s (g%d) waits %s at %s", name, x, w.class, w.site))
+			}
+		}
+		for x := range lockmon.held {
+			all = all && stalled[x]
+		}
+		for x := range lockmon.waiting {
+			all = all && stalled[x]
+		}
+		if !all || n == 0 {
+			continue
+		}
+		sort.Strings(who)
+		h := lockmon.held[g][len(lockmon.held[g])-1]
+		lockmonAdd(lockViolation{Kind: "waitgroup-deadlock", Class: h.class, Site: h.site,
+			Detail: fmt.Sprintf("waitgroup-deadlock|g%d waits for a WaitGroup (counter %d) while holding the %s mutex taken at %s; every goroutine of the package that could call Done is waiting for that mutex: %s", g, lockmon.wgCount[wg], h.class, h.site, strings.Join(who, "; "))})
+	}
+}
+
 func lockHooks() *Hooks {
 	return &Hooks{Sleep: clockSleep, Go: lockGo, Lock: lockHook}
 }
@@ -314,6 +407,17 @@ func lockLeakCheck(g int64, where string) {
 // lockGo: goroutine lifecycle events of the package (flusher exit with a lock held).
 func lockGo(name, ev string) {
 	clockGo(name, ev)
+	if ev == "enter" || ev == "exit" {
+		lockmon.mu.Lock()
+		if lockmon.on {
+			if ev == "enter" {
+				lockmon.alive[gid()] = name
+			} else {
+				delete(lockmon.alive, gid())
+			}
+		}
+		lockmon.mu.Unlock()
+	}
 	if ev == "exit" {
 		lockLeakCheck(gid(), "goroutine "+name)
 	}
